@@ -33,9 +33,36 @@ GROUPS = {
                {}, self_rec="GridCells", effects={"self._connect_single_cell_nd": ("T", ("R", "CellNd"), ("L", LI))}),
         ],
     },
+    "Legacy": {
+        "namespace": "Mesa.Legacy.GenFn",
+        "path": "MesaModel/Gen/FnLegacy.lean",
+        "recs": [
+            Rec("LGrid", {"width": "Int", "height": "Int", "torus": "Bool", "_neighborhood_cache": ("D", ("T", I2, "Bool", "Bool", "Int"), ("L", I2))}),
+        ],
+        "fns": [
+            Fn("C09", "mesa/space.py", "_Grid.out_of_bounds", "out_of_bounds", {"pos": I2}, self_rec="LGrid"),
+            Fn("C08", "mesa/space.py", "_Grid.torus_adj", "torus_adj", {"pos": I2}, self_rec="LGrid"),
+            Fn("C09", "mesa/space.py", "_Grid.get_neighborhood", "get_neighborhood",
+               {"pos": I2, "moore": "Bool", "include_center": "Bool", "radius": "Int"}, self_rec="LGrid",
+               state={"self._neighborhood_cache": ("D", ("T", I2, "Bool", "Bool", "Int"), ("L", I2))}),
+        ],
+    },
 }
 
 REGISTRY = {
+    "C08": {
+        "groups": ["Legacy"],
+        "functions": ["_Grid.out_of_bounds", "_Grid.torus_adj"],
+        "lean_modules": ["MesaModel.Proofs.XlateLegacy"],
+        "theorems": ["Mesa.Legacy." + t for t in ("C08_gen_out_of_bounds_eq_model", "C08_gen_torus_adj_eq_model")],
+    },
+    "C09": {
+        "groups": ["Legacy"],
+        "functions": ["_Grid.out_of_bounds", "_Grid.get_neighborhood"],
+        "lean_modules": ["MesaModel.Proofs.XlateLegacy"],
+        "theorems": ["Mesa.Legacy." + t for t in (
+            "C09_gen_out_of_bounds_eq_model", "C09_gen_get_neighborhood_eq_model", "C09_orth_spec_generated")],
+    },
     "C07": {
         "groups": ["Cells"],
         "functions": ["Grid._connect_single_cell_2d", "Grid._connect_single_cell_nd",
